@@ -159,19 +159,19 @@ func TestVerifC10FS(t *testing.T) {
 		obs := c10RunFS(m)
 		var list []string
 		for _, e := range obs.List {
-			list = append(list, fmt.Sprintf("(%s, %s, %s, %s)", gStr(e.Path), gBool(e.Dir), gN(e.Size), gStr(e.Bytes)))
+			list = append(list, fmt.Sprintf("(%s, %s, %s, %s)", c10Str(e.Path), gBool(e.Dir), gN(e.Size), c10Str(e.Bytes)))
 		}
 		marshal := "None"
 		if obs.Marshal != nil {
-			marshal = "(Some " + gStr(*obs.Marshal) + ")"
+			marshal = "(Some " + c10Str(*obs.Marshal) + ")"
 		}
 		store := "[]"
 		if m.Kind == 0 {
 			store = c10StoreTerm(m)
 		}
 		term := fmt.Sprintf("{| c_kind := %s; c_txt := %s; c_store := %s;\n   o_panic := %s; o_load := %s; o_list := %s;\n   o_marshal := %s; o_pdh := %s; o_sd := %s |}",
-			gN(int64(m.Kind)), gStr(m.Text), store, gBool(obs.Panic != ""), gBool(obs.Load), gList(list), marshal, gStr(obs.PDH),
-			gOpt(obs.SDOk, gStrs(obs.SD)))
+			gN(int64(m.Kind)), c10Str(m.Text), store, gBool(obs.Panic != ""), gBool(obs.Load), gList(list), marshal, c10Str(obs.PDH),
+			gOpt(obs.SDOk, c10Strs(obs.SD)))
 		desc := map[string]interface{}{"index": i, "kind": m.Kind, "manifest": m.Text, "panic": obs.Panic, "load_ok": obs.Load,
 			"load_err": obs.LoadErr, "listing": obs.List, "marshal": obs.Marshal, "pdh": obs.PDH, "sized_digests": obs.SD, "tags": m.Tags}
 		tags := append([]string{fmt.Sprintf("kind=%d", m.Kind), fmt.Sprintf("load_ok=%v", obs.Load)}, m.Tags...)
